@@ -154,7 +154,7 @@ impl Scenario for TimeConservation {
         "time_conservation"
     }
     fn quick_runs(&self, _f: &str) -> u64 {
-        3200
+        6400
     }
     fn chunk(&self) -> u64 {
         50
